@@ -320,7 +320,9 @@ func record(ctx context.Context, level Level, tag string, logger Logger, skip in
 	)
 	if enableCaller {
 		if fastCaller {
-			file, line = FastCaller(skip)
+			// FastCaller(0) is the caller of record itself, just like
+			// runtime.Caller(1), hence the same adjustment as below.
+			file, line = FastCaller(skip + 1)
 		} else {
 			_, file, line, _ = runtime.Caller(skip + 1)
 		}
